@@ -22,9 +22,14 @@ Driver operations for the peer-management models (C18). Core Lean only.
   conn cancel <k>                              (Disconnect of the id of the k-th request in flight)
   conn dump
      state line: conns=<n> live=<n> bans=<n> dials=<n> asks=<n> closed=<n> addrs=[…] banned=[…]
+
+Every `conn` op is ALSO computed by the code regenerated from connmanager.go (`BHS.Gen.ConnMgr` through
+`BHS.Model.ConnMgrWire.genStep`); when its state (answer line, pending, live, ids, counters) differs from the hand
+model's the answer is `err:gen-mismatch model=… gen=…`, so the correspondence runs exercise the translation too.
 -/
 import BHS.Model.Peers
 import BHS.Model.ConnMgr
+import BHS.Model.ConnMgrWire
 import BHS.Gen.PeerConsts
 
 namespace Driver.Ops.Peers
@@ -35,6 +40,7 @@ structure S where
   st : Peers.State := {}
   ccfg : ConnMgr.Cfg := { target := Gen.defaultTargetOutbound, banAddr := true, maxFailed := Gen.maxFailedAttempts }
   cst : ConnMgr.St := {}
+  gst : ConnMgr.G := {}   -- the same machine over the code REGENERATED from connmanager.go (BHS.Gen.ConnMgr)
 
 def kindOf : String → Option Peers.Kind
   | "in" => some .inbound
@@ -84,9 +90,21 @@ def showNats (l : List Nat) : String := "[" ++ ",".intercalate (l.map toString) 
 def connLine (s : ConnMgr.St) : String :=
   s!"conns={s.conns.length} live={s.live.length} bans={s.banned.length} dials={s.dials} asks={s.asks} closed={s.closed.length} addrs={showNats (s.conns.map (·.2))} banned={showNats s.banned}"
 
+/-- everything of the hand model's state that can be printed: the answer line plus the handler's internals -/
+def connFull (s : ConnMgr.St) : String :=
+  connLine s ++ s!" pending={showNats s.pending} live={showNats s.live} next={s.nextId} gfails={s.gfails} closed={showNats s.closed} fails={showNats ((s.conns.map (·.2) ++ s.banned).map s.fails)}"
+
+/-- the hand model's answer, unless the regenerated code (evaluated on every op as well) says otherwise -/
+def connCheck (m : ConnMgr.St) (g : ConnMgr.G) : String :=
+  if connFull m = connFull g.toSt then connLine m
+  else "err:gen-mismatch model=" ++ connFull m ++ " gen=" ++ connFull g.toSt
+
 def connStep (st : S) (e : Option ConnMgr.Event) : Option (S × String) :=
   match e with
-  | some ev => let c := ConnMgr.step st.ccfg st.cst ev; some ({ st with cst := c }, connLine c)
+  | some ev =>
+    let c := ConnMgr.step st.ccfg st.cst ev
+    let g := ConnMgr.genStep { toCfg := st.ccfg } st.gst ev
+    some ({ st with cst := c, gst := g }, connCheck c g)
   | none => some (st, "bad-index")
 
 def handle (st : S) : List String → Option (S × String)
@@ -121,7 +139,8 @@ def handle (st : S) : List String → Option (S × String)
     let ban ← b.toNat?
     let c : ConnMgr.Cfg := { target := ConnMgr.effTarget Gen.defaultTargetOutbound target, banAddr := ban != 0, maxFailed := Gen.maxFailedAttempts }
     let s := ConnMgr.start c
-    pure ({ st with ccfg := c, cst := s }, connLine s)
+    let g := ConnMgr.genStart { toCfg := c }
+    pure ({ st with ccfg := c, cst := s, gst := g }, connCheck s g)
   | ["conn", "ok", k, a] => do
     let k ← k.toNat?
     let a ← a.toNat?
